@@ -254,6 +254,17 @@ fn c11(r: &mut Rng, i: u64, p: &HashMap<String, String>) -> Vec<Value> {
         for _ in 0..r.below(3) { node = match r.below(3) { 0 => N::el("blockquote", vec![node]), 1 => N::el("ul", vec![N::el("li", vec![node])]), _ => N::el("dl", vec![N::el("dd", vec![node])]) }; }
         body = vec![node];
     }
+    // another shape: a block whose content has no width (so it may be laid out at width 0), holding preformatted text
+    // with tabs, blanks and characters without width, inside prefixed blocks at widths the prefixes use up
+    let edge2 = !edge && r.chance(1, 12);
+    if edge2 {
+        let zw = *r.pick(&["\u{200b}", "\u{1}", "\u{200d}", "\u{301}", ""]);
+        let tail = *r.pick(&["\t", "\t\t", " \t", "  ", "\t \n\t", "\n"]);
+        let mut node = N::el("pre", vec![N::T(format!("{}{}", zw, tail))]);
+        for _ in 0..r.range(1, 3) { node = match r.below(5) { 0 => N::el("blockquote", vec![node]), 1 => N::el("ul", vec![N::el("li", vec![node])]), 2 => N::el("ol", vec![N::el("li", vec![node])]), 3 => N::el("h2", vec![node]), _ => N::el("dl", vec![N::el("dd", vec![node])]) }; }
+        body = vec![node];
+    }
+    let edge = edge || edge2;
     let html = doc_html(&body);
     let bytes = if !edge && r.chance(1, 3) { mutate(r, html.as_bytes()) } else { html.into_bytes() };
     let deco = deco_std(r);
@@ -262,7 +273,7 @@ fn c11(r: &mut Rng, i: u64, p: &HashMap<String, String>) -> Vec<Value> {
     let mut ops_o = ops.clone();
     ops_o.push(json!(["overflow"]));
     let route = if deco == "rich" { "lines" } else { "string" };
-    let w = if edge { r.range(1, 14) } else { r.range(1, wmax(p, 60)) };
+    let w = if edge2 { r.range(1, 5) } else if edge { r.range(1, 14) } else { r.range(1, wmax(p, 60)) };
     vec![json!({"id": id("c11", i), "runs": [
         tagged(run_hx(&bytes, 0, cfg(deco, ops.clone()), route), "zero"),
         tagged(run_hx(&bytes, w, cfg(deco, ops), route), "base"),
@@ -379,11 +390,14 @@ fn c15(r: &mut Rng, i: u64, p: &HashMap<String, String>) -> Vec<Value> {
         let n = o[0].as_str().unwrap_or("");
         !(n == opt || (opt == "noborders" && n == "raw") || (opt == "raw" && n == "noborders") || (opt == "rawoff" && n == "raw"))
     }).collect();
-    let w = if r.chance(2, 3) { r.range(1, 30) } else { r.range(1, wmax(p, 100)) };
+    let w = if opt == "max_wrap" && r.chance(1, 4) { r.range(1, 6) } else if r.chance(2, 3) { r.range(1, 30) } else { r.range(1, wmax(p, 100)) };
     let mut arg = json!(0);
     let mut with = base.clone();
     match opt {
-        "max_wrap" => { let m = if r.chance(1, 3) { w + r.below(20) } else { r.range(1, 40) }; arg = json!(m); with.push(json!(["max_wrap", m])); }
+        "max_wrap" => { // (with overflow allowed blocks can be wider than the page: only a limit above every block width is no limit)
+                        let ovf = r.chance(1, 4);
+                        let m = if ovf { 1000 } else if r.chance(1, 3) { w + r.below(20) } else { r.range(1, 40) }; arg = json!(m); with.push(json!(["max_wrap", m]));
+                        if ovf { base.push(json!(["overflow"])); with.push(json!(["overflow"])); } }
         "pad" => with.push(json!(["pad"])),
         "strike" => { base.push(json!(["strike", true])); with.push(json!(["strike", false])); }
         "noborders" => with.push(json!(["noborders"])),
@@ -466,7 +480,9 @@ fn c08(r: &mut Rng, i: u64, p: &HashMap<String, String>) -> Vec<Value> {
     if r.chance(1, 6) { base.push(json!(["pad"])); }
     let mut on = base.clone(); on.push(json!(["footnotes", true]));
     let mut off = base; off.push(json!(["footnotes", false]));
-    vec![json!({"id": id("c08", i), "runs": [run(&html, w, cfg(deco, on), "string"), run(&html, w, cfg(deco, off), "string")]})]
+    // (sometimes through the staged calls on a cloned tree: the clone has to keep what links hold)
+    let route = if r.chance(1, 4) { "staged_clone_string" } else { "string" };
+    vec![json!({"id": id("c08", i), "runs": [run(&html, w, cfg(deco, on), route), run(&html, w, cfg(deco, off), route)]})]
 }
 
 /// C07: one block B (ul / ol(start) / blockquote / h1..h6 / dd) whose items hold random flow content
@@ -476,7 +492,7 @@ fn c07(r: &mut Rng, i: u64, p: &HashMap<String, String>) -> Vec<Value> {
     f.links = false;        // footnote numbering is global, not compositional
     f.pre = r.chance(1, 2);
     let deco = *r.pick(&["plain", "rich", "plain_nd"]);
-    let kind = *r.pick(&["ul", "ol", "ol", "blockquote", "h", "dd"]);
+    let kind = *r.pick(&["ul", "ol", "ol", "blockquote", "h", "dd", "dt"]);
     let mut g = G::new(r, f);
     let (body, items, pw, meta): (Vec<N>, Vec<Vec<N>>, u64, Value) = match kind {
         "ul" => { let m = g.r.range(1, 6); let its: Vec<Vec<N>> = (0..m).map(|_| g.flow(1)).collect();
@@ -498,6 +514,9 @@ fn c07(r: &mut Rng, i: u64, p: &HashMap<String, String>) -> Vec<Value> {
                   (vec![ol], its, pw, json!({"kind": "ol", "start": st})) }
         "blockquote" => { let c = g.flow(1); (vec![N::el("blockquote", c.clone())], vec![c], 2, json!({"kind": "blockquote"})) }
         "dd" => { let c = g.flow(1); (vec![N::el("dl", vec![N::el("dd", c.clone())])], vec![c], 2, json!({"kind": "dd"})) }
+        // definition terms: no prefix; each renders like its content inside <em> on lines of its own
+        "dt" => { let m = g.r.range(1, 3); let its: Vec<Vec<N>> = (0..m).map(|_| { let mut c = g.inlines(1); if c.is_empty() { c.push(N::T(g.token())); } c }).collect();
+                  (vec![N::el("dl", its.iter().map(|c| N::el("dt", c.clone())).collect())], its.iter().map(|c| vec![N::el("em", c.clone())]).collect(), 0, json!({"kind": "dt"})) }
         _ => { let l = g.r.range(1, 6); let c = g.inlines(1); (vec![N::el(&format!("h{}", l), c.clone())], vec![c], l + 1, json!({"kind": format!("h{}", l)})) }
     };
     if body.is_empty() { return vec![]; }
@@ -711,7 +730,11 @@ fn custom_deco(r: &mut Rng) -> Value {
 /// a general block-grammar document (affix stream, width bound, no panic), and a trivial-decorator run.
 fn c16(r: &mut Rng, i: u64, p: &HashMap<String, String>) -> Vec<Value> {
     let deco = custom_deco(r);
-    let c = json!({"deco": deco, "ops": []});
+    // (layout options too: the prefixes of a parameterised decorator meet wrap limits and padding)
+    let mut ops: Vec<Value> = vec![];
+    if r.chance(1, 4) { ops.push(json!(["max_wrap", r.range(4, 40)])); }
+    if r.chance(1, 8) { ops.push(json!(["pad"])); }
+    let c = json!({"deco": deco, "ops": ops});
     match r.below(3) {
         0 => {
             // reuse the C07 shapes with the custom decorator
